@@ -174,6 +174,10 @@ class ExprMixin(Core):
         finally:
             self.cur_module = save
 
+    def ev_Set(self, node, st):
+        """{c1, c2, ...}: a set display of constants, used for membership tests only -- kept as the tuple of its items"""
+        return self.ev_seq(node.elts, st, lambda vs, s: self.ok(Tup(vs), s))
+
     def ev_Dict(self, node, st):
         """{k1: v1, ...} with constant keys: an analysis-time table (PyMap)"""
         if any(k is None for k in node.keys):
